@@ -5,7 +5,7 @@ use crate::{
         GlobalDeclaration, IfStatement, Program, Statement, Variable, WhileStatement,
     },
     error::{SemanticErrorMessage, SplError},
-    ToRange,
+    Shiftable, ToRange,
 };
 use std::cmp::Ordering;
 
@@ -17,17 +17,24 @@ pub fn analyze(program: &mut Program, table: &GlobalTable) {
     program
         .global_declarations
         .iter_mut()
-        .map(|r| r.as_mut())
-        .filter_map(|dec| match dec {
-            GlobalDeclaration::Procedure(proc) => Some(proc),
-            _ => None,
+        .filter_map(|r| {
+            let range = r.to_range().shift(r.offset);
+            match r.as_mut() {
+                GlobalDeclaration::Procedure(proc) => Some((proc, range)),
+                _ => None,
+            }
         })
-        .for_each(|proc| {
+        .for_each(|(proc, range)| {
             if let Some(name) = &proc.name {
                 let entry = table
                     .lookup(&name.value)
                     .expect("Named declaration without entry");
                 if let GlobalEntry::Procedure(proc_entry) = &entry {
+                    // a redeclared procedure has no entry of its own,
+                    // so its parameters and local variables are not known
+                    if proc_entry.range != range {
+                        return;
+                    }
                     let lookup_table = &LookupTable {
                         local_table: Some(&proc_entry.local_table),
                         global_table: Some(table),
